@@ -287,7 +287,10 @@ class Roles:
         before = before or Fm.method(HOOK, "run_before")["path"]
         after = after or Fm.method(HOOK, "run_after")["path"]
         ng = {k: b for k, b in Fm.bodies.items() if not b["glue"] and b["kind"] != "Closure" and b.get("impl_self") == AXE}
-        mh = [k for k, b in ng.items() if len(sig(b)) == 3 and _is_self(sig(b)[1]) and _is_adt(sig(b)[2], "auto::generated::SupportedMnemonic")
+        # (&X, SupportedMnemonic) -> Option<Hook>, on the machine or on its hook table
+        allb = {k: b for k, b in Fm.bodies.items() if not b["glue"] and b["kind"] != "Closure"}
+        mh = [k for k, b in allb.items() if len(sig(b)) == 3 and isinstance(sig(b)[1], list) and sig(b)[1][0] == "ref"
+              and _is_adt(sig(b)[2], "auto::generated::SupportedMnemonic")
               and isinstance(sig(b)[0], list) and sig(b)[0][:2] == ["adt", "std::option::Option"] and "hooks::Hook" in repr(sig(b)[0])]
         mh = mh[0] if len(mh) == 1 else Fm.method(AXE, "mnemonic_hooks")["path"]
         em = [k for k, b in ng.items() if len(sig(b)) == 1 and _is_adt(sig(b)[0], AXE) and b["vis"] != "pub"]
